@@ -88,6 +88,8 @@ type mAnsP2PKE struct {
 	nonce    uint32
 	used     string
 	dataMode bool
+	bound    bool
+	ih, rh   []byte // the InitHello this state answers and the RespHello sent for it
 }
 
 type p2pkeWorld struct {
@@ -103,7 +105,8 @@ type p2pkeWorld struct {
 	pol      [2]string
 	captured map[string][]byte // InitHello bytes an honest node sent to M
 	dials    map[int]*mDialP2PKE
-	answers  map[string]*mAnsP2PKE
+	answers  map[string]*mAnsP2PKE // latest handshake each peer started with M
+	ansConn  map[int]*mAnsP2PKE    // model connection -> handshake
 	attempt  int
 	extra    int
 	wg       sync.WaitGroup
@@ -112,7 +115,7 @@ type p2pkeWorld struct {
 func newP2PKEWorld(r *run) (world, error) {
 	w := &p2pkeWorld{r: r, inner: map[string]p2p.Swarm[memswarm.Addr]{}, addr: map[string]memswarm.Addr{}, owner: map[string]string{},
 		swarms: map[string]*p2pkeswarm.Swarm[memswarm.Addr]{}, pol: [2]string{"M", "own"}, captured: map[string][]byte{},
-		dials: map[int]*mDialP2PKE{}, answers: map[string]*mAnsP2PKE{}}
+		dials: map[int]*mDialP2PKE{}, answers: map[string]*mAnsP2PKE{}, ansConn: map[int]*mAnsP2PKE{}}
 	w.ctx, w.cf = context.WithCancel(context.Background())
 	realm := sharedRealm
 	for _, n := range nodeNames {
@@ -206,6 +209,13 @@ func (w *p2pkeWorld) mLoop() {
 		w.mu.Lock()
 		switch {
 		case hdr == 0: // InitHello of somebody who dialled M's address
+			if a := w.answers[peer]; a != nil && bytes.Equal(a.ih, data) {
+				// a retransmission: a responder answers it with the RespHello it already sent
+				rh := a.rh
+				w.mu.Unlock()
+				w.mTell(peer, rh)
+				continue
+			}
 			w.captured[peer] = data
 			adv := w.newAdv()
 			own := w.pol[1] == "own" || w.pol[1] == "data"
@@ -215,7 +225,7 @@ func (w *p2pkeWorld) mLoop() {
 				if own {
 					used = "M"
 				}
-				w.answers[peer] = &mAnsP2PKE{ciphers: cs, nonce: 16, used: used, dataMode: w.pol[1] == "data"}
+				w.answers[peer] = &mAnsP2PKE{ciphers: cs, nonce: 16, used: used, dataMode: w.pol[1] == "data", ih: data, rh: rh}
 				w.mu.Unlock()
 				w.mTell(peer, rh)
 				continue
@@ -281,6 +291,21 @@ func (w *p2pkeWorld) MListen(k, proof string) {
 	w.mu.Unlock()
 }
 
+func (w *p2pkeWorld) BindAnswer(c int, peer string) {
+	// M's side of a connection may be registered a moment after the dialler's call returned
+	for i := 0; i < 30; i++ {
+		w.mu.Lock()
+		if a := w.answers[peer]; a != nil && !a.bound {
+			a.bound = true
+			w.ansConn[c] = a
+			w.mu.Unlock()
+			return
+		}
+		w.mu.Unlock()
+		time.Sleep(10 * time.Millisecond)
+	}
+}
+
 func (w *p2pkeWorld) MDial(c int, t string) string {
 	w.mu.Lock()
 	w.dials[c] = &mDialP2PKE{peer: t, nonce: 16, used: "none", rh: make(chan []byte, 4), rd: make(chan []byte, 4)}
@@ -334,15 +359,24 @@ func (w *p2pkeWorld) MPresent(c int, k, proof string) string {
 	peer := d.peer
 	w.mu.Unlock()
 	w.mTell(peer, ih)
-	var rh []byte
-	select {
-	case rh = <-d.rh:
-	case <-time.After(150 * time.Millisecond):
-		return "no RespHello"
+	// an honest-equivalent attempt is given more time: on a busy machine the answer is slow, and a refusal
+	// is silence either way
+	patience := 150 * time.Millisecond
+	if k == "M" && proof == "own" {
+		patience = 600 * time.Millisecond
 	}
-	cs, _, err := attacker.ReadRespHello(hs, rh)
-	if err != nil {
-		return "bad RespHello: " + err.Error()
+	var cs *attacker.Ciphers
+	deadline := time.After(patience)
+	for cs == nil {
+		select {
+		case rh := <-d.rh:
+			// a RespHello of an earlier attempt does not fit this handshake state: keep waiting
+			if c2, _, err := attacker.ReadRespHello(hs, rh); err == nil {
+				cs = c2
+			}
+		case <-deadline:
+			return "no RespHello"
+		}
 	}
 	own := proof == "own"
 	id := adv.InitDone(cs, own, garbage(64, w.attempt+1))
@@ -357,7 +391,7 @@ func (w *p2pkeWorld) MPresent(c int, k, proof string) string {
 	select {
 	case <-d.rd:
 		return "RespDone received"
-	case <-time.After(150 * time.Millisecond):
+	case <-time.After(patience):
 		return "no RespDone"
 	}
 }
@@ -375,7 +409,7 @@ func (w *p2pkeWorld) MUsed(c int, role, peer string) (string, bool) {
 		}
 		return "none", false
 	}
-	if a := w.answers[peer]; a != nil {
+	if a := w.ansConn[c]; a != nil {
 		return a.used, true
 	}
 	return "none", false
@@ -394,7 +428,7 @@ func (w *p2pkeWorld) MSend(c int, role, peer string, ask bool, payload []byte, t
 			pkt = append(attacker.Hdr(16), garbage(len(payload)+16, 3)...)
 		}
 	} else {
-		a := w.answers[peer]
+		a := w.ansConn[c]
 		if a == nil {
 			w.mu.Unlock()
 			return fmt.Errorf("nobody dialled M")
